@@ -59,9 +59,27 @@ def check(ctx):
             k1 = gen.mkcontract(c)
         except Exception:
             continue
-        kind = rng.choice(["fresh", "to_input", "to_output", "absent", "same", "swap", "roundtrip", "chain"])
+        kind = rng.choice(["fresh", "to_input", "to_output", "absent", "same", "swap", "roundtrip", "chain", "cancel"])
         src = rng.choice(vs)
-        if kind == "fresh":
+        if kind == "cancel":
+            # merging two variables of the same side whose coefficients cancel exactly: the renamed constraint is a bare constant
+            # inequality -- true (vacuous) or FALSE (then the renamed assumptions/guarantees admit no behaviour at all)
+            side, role = (ins, "a") if (len(ins) >= 2 and (len(outs) < 2 or rng.random() < 0.5)) else (outs, "g")
+            if len(side) >= 2:
+                x, y = rng.sample(side, 2)
+                kk = rng.choice([F(1), F(2), F(1, 2)])
+                c[role] = c[role] + [({x: kk, y: -kk}, F(rng.choice([-2, -1, -1, 1, 3])))]
+                try:
+                    k1 = gen.mkcontract(c)
+                except Exception:
+                    continue
+                src = x
+                cancel_target = y
+            else:
+                kind = "fresh"
+        if kind == "cancel":
+            maps = [(src, cancel_target)]
+        elif kind == "fresh":
             maps = [(src, "n1")]
         elif kind == "to_input":
             maps = [(src, rng.choice(ins))]
@@ -88,7 +106,8 @@ def check(ctx):
         exp = {"a": list(c["a"]), "g": list(c["g"]), "i": list(ins), "o": list(outs)}
         clash = False
         dead = False
-        for s, u in maps:
+        dead_at_last = False
+        for idx_, (s, u) in enumerate(maps):
             if s == u:
                 continue
             if (s in exp["i"] and u in exp["o"]) or (s in exp["o"] and u in exp["i"]):
@@ -101,12 +120,16 @@ def check(ctx):
                     # merging two variables made the constraints unsatisfiable: every later step starts from a contract
                     # the constructor refuses (ValueError), so nothing further can be demanded of this sequence
                     dead = True
+                    dead_at_last = idx_ == len(maps) - 1
                     break
         if dead:
             hist["sequence_hits_unsatisfiable_contract"] = hist.get("sequence_hits_unsatisfiable_contract", 0) + 1
             if okind == "err" and v[0] == 6:
                 ctx.violation("rename:escape:" + v[1], "undocumented exception escaped from rename", dict(payload, exception=v[1] + ": " + v[2]))
-            continue
+            if not (dead_at_last and okind == "ok"):
+                continue
+            # the LAST step made the constraints unsatisfiable and a contract came back all the same: it must then be
+            # unsatisfiable too (compared below like any other result)
         if any(s in ins + outs for s, _ in maps):
             seen.add((gen.key_of(c["a"] + c["g"]), tuple(ins), tuple(outs), tuple(maps)))
         if clash:
